@@ -52,7 +52,7 @@ def decode_instruction(instr):
     elif not instr_14 and not instr_12 and substring(instr, 7, 0) != 0b00000000 and instr_op == 0b0111101:
         # Exception Return
         return SubsPcLrThumbT1
-    elif not instr_14 and not instr_12 and instr_5 and instr[5:11] == 0b011111:
+    elif not instr_14 and not instr_12 and instr_5 and substring(instr, 26, 21) == 0b011111:
         # Move from Banked or Special register
         # armv7, will not be implemented
         raise NotImplementedError()
